@@ -33,6 +33,7 @@ MID = {'leaf_kinds': ['none', 'bool', 'int', 'float', 'special', 'str'], 'key_ki
 FULL = {}
 DICT2 = {'leaf_kinds': ['int', 'none'], 'key_kinds': ['str', 'int', 'bool'], 'specials': [], 'lits': ['true']}
 CKEYS = {'leaf_kinds': ['int', 'none'], 'key_kinds': ['concrete'], 'specials': [], 'lits': ['true']}
+BKEYS = {'leaf_kinds': ['int', 'none'], 'key_kinds': ['concrete', 'badkey'], 'specials': [], 'lits': ['true']}
 LIST2 = {'leaf_kinds': ['int', 'bool', 'float', 'str'], 'key_kinds': ['str'], 'specials': [], 'lits': ['true']}
 
 
@@ -50,6 +51,8 @@ def families(tier):
             # dict keys as plain Python values from the colliding classes (True/1/1.0, False/0/-0.0, keyword strings)
             {'name': 'single', 'params': {'depth': 1, 'width': 2, 'shape': CKEYS, 'containers': ['dict']}, 'weight': 1},
             {'name': 'pair', 'params': {'depth': 1, 'width': 1, 'shape': CKEYS, 'containers': ['dict']}, 'weight': 1},
+            # keys that json refuses (tuples, bytes, frozenset): sanitize must raise TypeError
+            {'name': 'single', 'params': {'depth': 2, 'width': 1, 'bad': True, 'shape': BKEYS, 'containers': ['dict', 'list']}, 'weight': 1},
         ]
     return [
         {'name': 'single', 'params': {'depth': 2, 'width': 2, 'bad': True, 'shape': MID}, 'weight': 2},
